@@ -1,4 +1,5 @@
-import Nstd.Callback.ModelReuse
+import Nstd.Callback.LemmasReuse
+import Nstd.Callback.LemmasTop
 import Nstd.Callback.LemmasAudit
 /-
   Property C12 — address reuse (a re-created Listener / Emitter at the address of its predecessor).
@@ -14,24 +15,36 @@ import Nstd.Callback.LemmasAudit
   fields.  So whatever object lives at the address a `disconnected` entry still holds — none, or a new listener constructed
   there — the code behaves the same.
 
-  `execR` (ModelReuse.lean) is the evaluator in which a re-created object gets the id of its predecessor.
+  `execR` (ModelReuse.lean) is the evaluator in which every re-created object (listener or emitter) gets the id of its
+  predecessor; `execRL` the one in which re-created LISTENERS do (emitters get new ids as in `exec`), generic in the machine.
 
-  OPEN: the refinement of `execR` to `exec`.  Statement (with `runOpsR` = `runOps` over `execR`):
-      theorem reuse_refines (P : Prog) (ne nl fuel : Nat) (ops : List Action) :
-        (runOpsR P fuel (Run.init State.fresh ne nl) ops).log = (runOps machine P fuel (Run.init State.fresh ne nl) ops).log ∧
-        bookkeeping of the two final states equal when read through the variables (`emId`, `lId`) of each run
-  Proof plan: a relation `R ρE ρL m' m` between the state `m'` of `execR` and the state `m` of `exec` for partial injections
-  ρ from the live ids of `m` to ids of `m'`: emitters/listeners correspond along ρ; slot lists pointwise `Slot.sim` up to ρL;
-  listener lists equal under live keys and EMPTY under every id outside the image of ρE (by `stale_mentions_are_dead_data`);
-  frames equal except `data` of invalidated frames; key lists equal as sets of live keys (`~Listener` may visit them in
-  another order: `dtor_listener_order_irrelevant`, PropsOrder.lean).  Missing: the nine preservation lemmas of `R` and the
-  lifting through the evaluator.  Proved towards it: `stale_mentions_are_dead_data`, `stale_receiver_never_read` (below),
-  `dtor_listener_order_irrelevant`, `dtor_emitter_order_irrelevant`.  Tested on every run: the driver executes `execR` beside
-  `exec` on every op line of the correspondence run and flags `REUSEDIFF` when log or bookkeeping differ; the real code runs
-  every program that re-creates an object a second time with exact address reuse (`reuse` lines).
+  Proved (`reuse_listener_refines_spec`): the model with listener address reuse refines the specification with listener
+  address reuse (`Spec.reviveL`: the id is alive again and has no connection), for every program, history and fuel — same
+  log, no use of freed memory, audit, clean bookkeeping after every history.  Key lemma `sim_reviveL`: constructing a new
+  listener at a destroyed id keeps the simulation relation `Sim` (entries marked `disconnected` that still hold the id are
+  outside every clause of the invariant), so the nine primitive lemmas apply unchanged; `execRL_sim` (LemmasReuse.lean) lifts
+  that through the evaluator.
+
+  OPEN (1): the specification with listener reuse and the specification without produce the same log.  Plan: the run
+  without reuse carries `lIdx` (object -> variable); the state of the run with reuse is the state of the other with every
+  listener id replaced by `lIdx` of it (live lists renamed pointwise, `lsig`/`lAlive` read through `lId`); invariants of the
+  run without reuse: every receiver in a live list is the live object its variable holds, ids >= `nextL` are pristine.
+  Only for programs that name listener variables < nl: in `exec`, a variable >= nl starts with the object id that `newL`
+  hands out later, so two variables can alias there (harmless for the theorems about `exec`, which quantify over all
+  programs, but the two evaluators then differ).
+  OPEN (2): EMITTER address reuse.  `Sim` is NOT kept by constructing an emitter at a destroyed id while activations of the
+  old emitter are still on the stack (`FInv.act`: `data.activation = topOf frames (e, g)` would see the old, invalidated
+  frames), and the specification identifies an emission in progress by (e, g): its `finish` would decrement the depth of the
+  new emitter's signal.  Needed: frames / emissions keyed by a generation of the emitter id, or a relation that ignores
+  invalidated frames.  What protects the code is the `invalidated` flag: an invalidated activation reads neither its emitter
+  nor its data (`actEnd`, `next`).
+  Tested on every run for both kinds of reuse: the driver executes `execR` beside `exec` on every op line of the
+  correspondence run and flags `REUSEDIFF` when log or bookkeeping differ; the real code runs every program that re-creates
+  an object a second time with exact address reuse (`reuse` lines).
 -/
 set_option linter.unusedSimpArgs false
 namespace Nstd.Callback
+open Spec
 
 /-- two slot entries that differ at most in the receiver / object of an entry marked `disconnected` -/
 def Slot.sim (x y : Slot) : Prop :=
@@ -180,5 +193,120 @@ example : hasMatch 1 0 [{ receiver := 1, object := 1, slot := 0, node := 0, stat
 def runOpsR (P : Prog) (fuel : Nat) (r : Run State) : List Action → Run State
   | [] => r
   | a :: as => runOpsR P fuel (execR P fuel r (.acts [a])) as
+
+/-! ### listener address reuse: the model with re-used listener ids refines the specification with re-used listener ids -/
+
+/-- the specification with listener address reuse: the id is alive again and has no connection -/
+def Spec.reviveL (l : Nat) (s : SState) : SState :=
+  { s with lAlive := fun l' => if l' = l then true else s.lAlive l'
+           lsig := fun l' e => if l' = l then [] else s.lsig l' e }
+
+def Spec.machineRL : MachineR SState (Nat × Nat) (List Nat) := { Spec.machine with reviveL := Spec.reviveL }
+
+theorem reviveL_data (l : Nat) (m : State) (e g : Nat) : (reviveL l m).data e g = m.data e g := rfl
+
+/-- **Re-creating a listener at the address of a destroyed one keeps the simulation**: the model state with a new, empty
+    listener object at the dead id is related to the specification state in which that id is alive again and has no
+    connection.  (What still mentions the id — entries marked `disconnected` — is outside every clause of the invariant.) -/
+theorem sim_reviveL {m : State} {s : SState} {K : MStack} (l : Nat) (h : Sim m s K) (hd : m.listeners l = none) :
+    Sim (reviveL l m) (Spec.reviveL l s) K where
+  nofault := h.nofault
+  f := ⟨h.f.links, h.f.act, h.f.hasData, h.f.invDead, h.f.deadInv⟩
+  sl := ⟨h.sl.clean, h.sl.allConn, h.sl.sorted, h.sl.bound, h.sl.obj⟩
+  b := by
+    refine ⟨?_, ?_, h.b.ekeys, ?_⟩
+    · intro e g d hdd x hx hn
+      have := h.b.recv e g d hdd x hx hn
+      simp only [reviveL, State.setListener]
+      by_cases hr : x.receiver = l
+      · simp [hr]
+      · simp [hr, this]
+    · intro l' li e g x hl'
+      by_cases hll : l' = l
+      · subst hll
+        simp only [reviveL, State.setListener, if_true, Option.some.injEq] at hl'
+        subst hl'
+        simp only [List.count_nil]
+        show 0 = match m.data e g with | none => 0 | some d => _
+        cases hdd : m.data e g with
+        | none => rfl
+        | some d =>
+          simp only
+          symm
+          rw [List.countP_eq_zero]
+          intro y hy hm
+          simp only [Slot.isMatch, Bool.and_eq_true, beq_iff_eq, bne_iff_ne, ne_eq] at hm
+          have := h.b.recv e g d hdd y hy hm.2
+          rw [hm.1.1, hd] at this
+          simp at this
+      · simp only [reviveL, State.setListener, hll, if_false] at hl'
+        exact h.b.count l' li e g x hl'
+    · intro l' li e hl' hne
+      by_cases hll : l' = l
+      · subst hll
+        simp only [reviveL, State.setListener, if_true, Option.some.injEq] at hl'
+        subst hl'
+        exact absurd rfl hne
+      · simp only [reviveL, State.setListener, hll, if_false] at hl'
+        exact h.b.lkeys l' li e hl' hne
+  abs := by
+    refine ⟨h.abs.clock, h.abs.eAlive, ?_, h.abs.live, h.abs.depth, h.abs.outer, h.abs.born, h.abs.startLe⟩
+    intro l'
+    simp only [Spec.reviveL, reviveL, State.setListener]
+    by_cases hll : l' = l
+    · simp [hll]
+    · simp [hll, h.abs.lAlive l']
+  cur := cursors_mono (m := m) (m' := reviveL l m) (Nat.le_refl _) (fun e g d' _ hal hd' => ⟨hal, d', hd', fun _ _ _ hli => hli⟩) h.cur
+
+theorem reviveOK : ReviveOK machineRL Spec.machineRL Sim := by
+  intro m s K l h hal
+  have hd : m.listeners l = none := by
+    simp only [machineRL, machine] at hal
+    cases hm : m.listeners l with
+    | none => rfl
+    | some li => rw [hm] at hal; simp at hal
+  exact sim_reviveL l h hd
+
+def runOpsRL {σ α π : Type} (M : MachineR σ α π) (P : Prog) (fuel : Nat) (r : Run σ) : List Action → Run σ
+  | [] => r
+  | a :: as => runOpsRL M P fuel (execRL M P fuel r (.acts [a])) as
+
+theorem runOpsRL_rel (P : Prog) (fuel : Nat) (ops : List Action) {r₁ : Run State} {r₂ : Run SState}
+    (h : RunRel Sim [] r₁ r₂) : RunRel Sim [] (runOpsRL machineRL P fuel r₁ ops) (runOpsRL Spec.machineRL P fuel r₂ ops) := by
+  induction ops generalizing r₁ r₂ with
+  | nil => exact h
+  | cons a as ih =>
+    exact ih ((execRL_sim (M₁ := machineRL) (M₂ := Spec.machineRL) simOK reviveOK P fuel).1 [] [a] r₁ r₂ h)
+
+/-- **The model with listener address reuse refines the specification** (`execRL`: a re-created listener is constructed at
+    the id — the address — of its destroyed predecessor, whatever still mentions that id; the specification with reuse: that id
+    is alive again and has no connection).  For every program, every numbers of objects, every history and every fuel: the
+    log of the model — slot invocations with arguments, start and return of every `emit` — is the log of the snapshot
+    specification; no freed object is ever used (`bad`, `fault`); the final state passes the audit of `no_dangling` (every
+    pointer that can be followed is valid, the two sides are inverse); no activation is left and every slot list is clean. -/
+theorem reuse_listener_refines_spec (P : Prog) (ne nl fuel : Nat) (ops : List Action) :
+    (runOpsRL machineRL P fuel (Run.init State.fresh ne nl) ops).log =
+        (runOpsRL Spec.machineRL P fuel (Run.init SState.fresh ne nl) ops).log ∧
+      (runOpsRL machineRL P fuel (Run.init State.fresh ne nl) ops).bad = false ∧
+      (runOpsRL machineRL P fuel (Run.init State.fresh ne nl) ops).m.fault = false ∧
+      Audit (runOpsRL machineRL P fuel (Run.init State.fresh ne nl) ops).m ∧
+      (runOpsRL machineRL P fuel (Run.init State.fresh ne nl) ops).m.frames = [] ∧
+      ∀ e g d, (runOpsRL machineRL P fuel (Run.init State.fresh ne nl) ops).m.data e g = some d →
+        d.activation = none ∧ d.dirty = false ∧ ∀ x ∈ d.slots, x.state = .connected := by
+  have h := runOpsRL_rel P fuel ops (init_rel ne nl)
+  exact ⟨h.log, h.bad₁, h.sim.nofault, audit_of_sim h.sim, (sim_quiescent h.sim).1, (sim_quiescent h.sim).2⟩
+
+/-- a listener destroyed inside its own slot while an emission runs, re-created at the same id inside the same emission and
+    connected again: the entry of the old object (marked `disconnected`, receiver = that id) and the entry of the new object
+    are in the list together; the new object is not invoked in this emission, is invoked in the next -/
+def reuseProg : Prog :=
+  { script := fun l s k => if l = 0 ∧ s = 0 ∧ k = 0 then [.delL 0, .newL 0, .connect 0 0 0 1] else [] }
+
+example : (runOpsRL machineRL reuseProg 20 (Run.init State.fresh 1 2) [.connect 0 0 0 0, .connect 0 0 1 0, .emit 0 0 1, .emit 0 0 2]).log.reverse =
+    [.emitBegin 0 0 1, .call 0 0 1, .call 1 0 1, .emitEnd, .emitBegin 0 0 2, .call 1 0 2, .call 0 1 2, .emitEnd] := by decide
+
+/-- … the id of the variable is still 0 (reuse), where `exec` has moved on to a new id -/
+example : (runOpsRL machineRL reuseProg 20 (Run.init State.fresh 1 2) [.connect 0 0 0 0, .connect 0 0 1 0, .emit 0 0 1]).lId 0 = 0 := by decide
+example : (runOps machine reuseProg 20 (Run.init State.fresh 1 2) [.connect 0 0 0 0, .connect 0 0 1 0, .emit 0 0 1]).lId 0 = 2 := by decide
 
 end Nstd.Callback
